@@ -295,6 +295,18 @@ class Models:
             if name in ("lower", "upper", "strip", "rstrip", "lstrip", "replace", "format"):
                 return I.Builtin("opaque_str." + name, lambda interp, *a, **k: Opaque("str"))
             raise Unsupported("opaque str.%s" % name)
+        if isinstance(obj, Opaque) and obj.what == "inttext":
+            # a numeric text (digits, sign, 0x prefix): upper-casing / removing blanks keeps it the text of the same
+            # number (trusted axiom); it never contains "$NODEID"
+            if name in ("upper", "strip"):
+                return I.Builtin("inttext." + name, lambda interp, *a, **k: obj)
+            if name == "replace":
+                def _rep(interp, old, new, *a):
+                    if old == " " and new == "":
+                        return obj
+                    raise Unsupported("replace on numeric text")
+                return I.Builtin("inttext.replace", _rep)
+            raise Unsupported("numeric text .%s" % name)
         if isinstance(obj, I.SList):
             m = self.methods.get((list, name))
             if m is not None:
@@ -497,6 +509,8 @@ class Models:
         if typ in ("x", "X", "d", "b", "o", "c", "n") and typ:
             if isinstance(val, (SInt, SBool)) or (isinstance(val, int)):
                 if is_sym(val):
+                    if typ in ("X", "x") and spec in ("X", "x", "02X", "02x", "04X", "04x"):
+                        return Opaque("hexdigits", val)
                     return Opaque("str")
                 return format(val, spec)
             if isinstance(val, float) and typ == "d":
@@ -622,6 +636,13 @@ class Models:
         def _int(interp, x=0, base=None):
             ctx = interp.ctx
             if base is not None:
+                if isinstance(x, Opaque) and x.what == "inttext":
+                    # trusted axiom about CPython: int(text_of(n), 0) == n for the spellings text_of produces;
+                    # "0x" followed by the hex digits of a NEGATIVE number ("0x-5") is rejected
+                    v, style = x.payload
+                    if style == "0x%X" and truth(compare("<", v, 0)):
+                        ctx.raise_builtin(ValueError, "invalid literal for int() with base 0")
+                    return v
                 if isinstance(x, Opaque):
                     raise Unsupported("int() of opaque string")
                 if isinstance(x, str):
@@ -682,6 +703,8 @@ class Models:
                 return x
             if isinstance(x, (int, float)) and not is_sym(x) or x is None:
                 return str(x)
+            if isinstance(x, SInt):
+                return Opaque("inttext", (x, "%d"))       # decimal text of a symbolic integer
             return Opaque("str")
 
         @reg("repr")
